@@ -357,15 +357,20 @@ func (c *Ctx) hashDepthLimit() {
 	var guard *ssa.If
 	passIdx := 1
 	var guarded ssa.Value
-	for _, b := range f.Blocks {
-		if ifi := lastIf(b); ifi != nil {
-			for i, s := range b.Succs {
-				if !returnsSentinel(s, "ErrDepthIsTooBig") {
-					continue
-				}
-				// rejected exactly from 1024 on, however the comparison is spelt
-				if x, lo, ok := rejectLowerBound(ifi, i); ok && lo == 1024 {
-					guard, passIdx, guarded = ifi, 1-i, stripConv(x)
+	// the limit test sits in newImmutableCell or in an unexported helper it calls (depthAbove(maxChild, refs))
+	entry := f
+	for _, g := range c.deepFns(entry) {
+		for _, b := range g.Blocks {
+			if ifi := lastIf(b); ifi != nil {
+				for i, s := range b.Succs {
+					if !returnsSentinel(s, "ErrDepthIsTooBig") {
+						continue
+					}
+					// rejected exactly from 1024 on, however the comparison is spelt
+					if x, lo, ok := rejectLowerBound(ifi, i); ok && lo == 1024 {
+						guard, passIdx, guarded = ifi, 1-i, stripConv(x)
+						f = g
+					}
 				}
 			}
 		}
@@ -380,7 +385,7 @@ func (c *Ctx) hashDepthLimit() {
 				return
 			}
 			// the running depth is the value the limit guard compares with 1024
-			if ph, ok := bo.X.(*ssa.Phi); ok && ssa.Value(ph) == guarded {
+			if stripConv(bo.X) == guarded {
 				if k, ok := constInt(bo.Y); ok && k == 1 {
 					if !edgeDominates(f, edge{guard.Block(), passIdx}, b) {
 						okInc = false
@@ -420,8 +425,21 @@ func (c *Ctx) prunedAccessors() {
 		})
 		okv := false
 		if sl != nil {
-			sh := shape(sl.Low, 4)
-			okv = strings.Contains(sh, "2+(32*") && strings.Contains(sh, "*2)")
+			// the offset as a linear form, however it is spelt (literals or named constants, temporaries, any
+			// order of the terms): constant 2, one term with coefficient 32 and one with coefficient 2
+			lo := c.newProver(f, sl.Block()).lin(sl.Low)
+			has32, has2 := 0, 0
+			for _, co := range lo.co {
+				switch {
+				case co.Cmp(ratInt(32)) == 0:
+					has32++
+				case co.Cmp(ratInt(2)) == 0:
+					has2++
+				default:
+					has32 = -99
+				}
+			}
+			okv = lo.k.Cmp(ratInt(2)) == 0 && has32 == 1 && has2 == 1
 		}
 		two := false
 		for _, cl := range callsTo(f, bocPath+".readNBytesUIntFromArray") {
